@@ -9,12 +9,13 @@ facts about the editor's own control flow.
 
 Reading.  *Persistent* observables: state kind and selector, composition editor (symbols, gaps,
 selections, cursor, saved cursors), phonetic buffer, options, installed engine, chosen alternative
-(`nth`).  Per-key outputs (notice buffer, commit buffer) are reset at the start of every key exactly
-as coded: the notice always, the commit buffer only if the previous result was *commit*.
-"Nothing is being composed" is formalised as: state `Entering` with an empty pre-edit (in that state
-the phonetic buffer is empty).  Both buffers can also be empty in `EnteringSyllable` after an external
-call cleared the phonetic buffer — there Enter etc. answer *bell*: known finding F37, proved below as
-`idle_passthrough_without_state_refuted` with a concrete history.
+(`nth`).  Per-key outputs (notice buffer, commit buffer) are reset at the start of every key (the
+commit buffer unconditionally since the F29 fix), so after an ignored key nothing is committed.
+"Nothing is being composed" is formalised as: state `Entering` with an empty pre-edit.  On the
+unchanged tree both buffers could also be empty in `EnteringSyllable` (after an API call or a Pinyin
+key emptied the phonetic buffer) and Enter etc. were answered with *bell* (F37); repaired by a
+`fix:` commit, the model follows the repaired code, and `f37_history_now_ignored` replays the former
+counter-example history.  With a candidate list or a highlight open something *is* being composed.
 -/
 namespace Chewing.C06
 open Chewing
@@ -31,8 +32,7 @@ theorem result_exclusive (b : KB) :
 
 /-- what the key preamble does before the state machine runs -/
 def preamble (sh : Shared D L) : Shared D L :=
-  let sh := { sh with time := sh.time + 1, noticeBuf := [] }
-  if sh.last == .commit then { sh with commitBuf := [] } else sh
+  { sh with time := sh.time + 1, noticeBuf := [], commitBuf := [] }
 
 /-- the state machine part of a key: new shared state, new state, transition -/
 def dispatch (e : Editor D L) (ev : KeyEvent) : Outcome (Shared D L × St) :=
@@ -51,8 +51,7 @@ theorem dispatch_frame {e : Editor D L} {ev : KeyEvent} {sh : Shared D L} {st : 
     (h : dispatch env e ev = .ok (sh, st)) :
     (sh.last = .ignore → sh = { preamble e.shared with last := .ignore } ∧ st = e.state) ∧
     (sh.last = .bell → sh.com = e.shared.com) := by
-  have hpre : (preamble e.shared).com = e.shared.com := by
-    unfold preamble; simp only; split <;> rfl
+  have hpre : (preamble e.shared).com = e.shared.com := rfl
   unfold dispatch at h
   split at h
   · -- Entering
@@ -208,22 +207,15 @@ theorem ignore_frame {e e' : Editor D L} {ev : KeyEvent}
 theorem preamble_fields (sh : Shared D L) :
     (preamble sh).com = sh.com ∧ (preamble sh).syl = sh.syl ∧ (preamble sh).options = sh.options ∧
     (preamble sh).engine = sh.engine ∧ (preamble sh).nth = sh.nth ∧ (preamble sh).noticeBuf = [] ∧
-    (preamble sh).dict = sh.dict ∧ (preamble sh).dirty = sh.dirty ∧
-    (preamble sh).commitBuf = (if sh.last = .commit then [] else sh.commitBuf) := by
-  unfold preamble
-  simp only
-  by_cases hl : sh.last = .commit
-  · simp [hl]
-  · have : (sh.last == KB.commit) = false := by simp [hl]
-    simp [hl, this]
+    (preamble sh).dict = sh.dict ∧ (preamble sh).dirty = sh.dirty ∧ (preamble sh).commitBuf = [] :=
+  ⟨rfl, rfl, rfl, rfl, rfl, rfl, rfl, rfl, rfl⟩
 
 /-- the persistent observables are untouched by an ignored key (corollary in field form) -/
 theorem ignore_persistent {e e' : Editor D L} {ev : KeyEvent}
     (h : e.processKey env ev = .ok (e', .ignore)) :
     e'.state = e.state ∧ e'.shared.com = e.shared.com ∧ e'.shared.syl = e.shared.syl ∧
     e'.shared.options = e.shared.options ∧ e'.shared.engine = e.shared.engine ∧
-    e'.shared.nth = e.shared.nth ∧ e'.shared.noticeBuf = [] ∧
-    e'.shared.commitBuf = (if e.shared.last = .commit then [] else e.shared.commitBuf) ∧
+    e'.shared.nth = e.shared.nth ∧ e'.shared.noticeBuf = [] ∧ e'.shared.commitBuf = [] ∧
     (e'.shared.dict = e.shared.dict ∨ (0 < e.shared.dirty ∧ e'.shared.dict = env.reopenFlush e.shared.dict)) := by
   obtain ⟨hst, hsh⟩ := ignore_frame env h
   obtain ⟨p1, p2, p3, p4, p5, p6, p7, p8, p9⟩ := preamble_fields e.shared
@@ -311,16 +303,14 @@ def toyEnv : Env Unit Nat where
 
 def toyEditor : Editor Unit Nat := { shared := { syl := 0, dict := () } }
 
-/-- the full-strength reading "both buffers empty ⇒ Enter is ignored" is FALSE: type `h` (the
-    phonetic buffer is no longer empty, state `EnteringSyllable`), clear the phonetic buffer through
-    the API (`chewing_clean_bopomofo_buf`, a keyboard-type or language-mode change do the same), press
-    Enter: both buffers are empty, yet the key is answered with *bell*.  (F37) -/
-theorem idle_passthrough_without_state_refuted :
+/-- the former counter-example (F37): type `h`, clear the phonetic buffer through the API, press Enter.
+    On the repaired code the editor is back in `Entering` and Enter is ignored. -/
+theorem f37_history_now_ignored :
     ∃ (e : Editor Unit Nat) (e' : Editor Unit Nat),
       toyEditor.run toyEnv [.key { index := 32, code := 32, unicode := 104 }, .clearSyl] = .ok e ∧
-      e.shared.com.isEmpty = true ∧ toyEnv.sylIsEmpty e.shared.syl = true ∧
-      e.processKey toyEnv { index := 50, code := KC.enter, unicode := 65533 } = .ok (e', .bell) := by
-  refine ⟨_, _, rfl, ?_, ?_, rfl⟩ <;> decide
+      e.state = .entering ∧
+      e.processKey toyEnv { index := 50, code := KC.enter, unicode := 65533 } = .ok (e', .ignore) := by
+  refine ⟨_, _, rfl, ?_, rfl⟩; decide
 
 /-! ### non-vacuity -/
 
